@@ -672,7 +672,8 @@ def _run_cbtf(cb, rng, c):
             return cb.cbtf(c["M"], c["B"], c["K"], c["a_in"], c["freq"], c["bset"])
         save = {}
         if c["save"] == "warm":
-            f2 = np.sort(rng.uniform(0.5, 200.0, len(c["freq"]) + 2))
+            # another frequency vector: half of the time of the SAME length (a cache that only compares lengths)
+            f2 = np.sort(rng.uniform(0.5, 200.0, len(c["freq"]) + (2 if rng.random() < 0.5 else 0)))
             cb.cbtf(c["M"], c["B"], c["K"], rng.standard_normal(len(c["bset"])), f2, c["bset"], save)
         return cb.cbtf(c["M"], c["B"], c["K"], c["a_in"], c["freq"], c["bset"], save)
 
@@ -1199,7 +1200,7 @@ def _cbtf_check(inp, cb):
         warnings.simplefilter("ignore")
         tf = cb.cbtf(M, B, K, a_in, freq, bset)
         save = {}
-        cb.cbtf(M, B, K, np.arange(1.0, r + 1), np.linspace(0.7, 91.0, nf + 3), bset, save)
+        cb.cbtf(M, B, K, np.arange(1.0, r + 1), np.linspace(0.7, 91.0, nf), bset, save)  # same length, other values
         tw = cb.cbtf(M, B, K, a_in, freq, bset, save)
     a = np.asarray(a_in, dtype=complex)
     if a.ndim == 1:
